@@ -423,21 +423,22 @@ Qed.
    (None: the profile lacks it, the SQL projection yields zeros) *)
 Record stored := { sp_nt : nat; sp_samples : list sample; sp_sel : option nat }.
 
-Definition stored_ok (h : N -> N -> N) (P : stored) : Prop :=
-  parent_determined h (triples h (sp_samples P)) /\
+Definition stored_ok (h : N -> N -> N) (na : N) (P : stored) : Prop :=
+  parent_determined h (triples h (normalize na (sp_samples P))) /\
   match sp_sel P with Some k => (k < sp_nt P)%nat | None => True end.
 
-Definition stored_rows (h : N -> N -> N) (P : stored) : list row :=
-  map (project_row (sp_sel P)) (post_process h (sp_nt P) (sp_samples P)).
+Definition stored_rows (h : N -> N -> N) (na : N) (P : stored) : list row :=
+  map (project_row (sp_sel P)) (stored_tree h na (sp_nt P) (sp_samples P)).
 
 Definition stored_weight (P : stored) : Z :=
-  match sp_sel P with Some k => weight k (sp_samples P) | None => 0 end.
+  match sp_sel P with Some k => full_weight k (sp_samples P) | None => 0 end.
 
-Lemma stored_rows_conserve h P : stored_ok h P ->
-  rconserves (stored_rows h P) /\ eqm (rchild_tot (stored_rows h P) 0%N) (stored_weight P).
+Lemma stored_rows_conserve h na P : stored_ok h na P ->
+  rconserves (stored_rows h na P) /\ eqm (rchild_tot (stored_rows h na P) 0%N) (stored_weight P).
 Proof.
-  intros [Hinj Hk]. unfold stored_rows, stored_weight. destruct (sp_sel P) as [k|].
-  - destruct (post_process_balanced h (sp_nt P) (sp_samples P) k Hk Hinj) as [Hb Hr]. split.
+  intros [Hinj Hk]. unfold stored_rows, stored_weight, stored_tree. destruct (sp_sel P) as [k|].
+  - destruct (post_process_balanced h (sp_nt P) (normalize na (sp_samples P)) k Hk Hinj) as [Hb Hr].
+    rewrite weight_normalize in Hr. split.
     + intros x Hx. rewrite rsum_project_tot, rsum_project_self, rsum_project_child. exact (Hb x Hx).
     + rewrite rsum_project_child. exact Hr.
   - split.
@@ -448,9 +449,9 @@ Qed.
 
 (* Any multiset of stored profiles, rows in any order: the merged tree conserves, and the rows under its
    root add up to the sum of the profiles' weights. *)
-Theorem merged_profiles_conserve h limit (Ps : list stored) rows fs :
-  Forall (stored_ok h) Ps ->
-  Permutation rows (concat (map (stored_rows h) Ps)) ->
+Theorem merged_profiles_conserve h na limit (Ps : list stored) rows fs :
+  Forall (stored_ok h na) Ps ->
+  Permutation rows (concat (map (stored_rows h na) Ps)) ->
   Z.of_nat (length rows) <= limit ->
   let out := rows_of (m_nodes (merge_trie limit new_tree rows fs)) in
   rconserves out /\ eqm (rchild_tot out 0%N) (sumZ (map stored_weight Ps)).
@@ -458,13 +459,13 @@ Proof.
   intros Hok Hperm Hlim out. split.
   - apply merged_conserves_rows; [exact Hlim|].
     apply (rconserves_perm _ _ (Permutation_sym Hperm)). apply rconserves_concat.
-    apply Forall_map. eapply Forall_impl; [|exact Hok]. intros P HP. exact (proj1 (stored_rows_conserve h P HP)).
+    apply Forall_map. eapply Forall_impl; [|exact Hok]. intros P HP. exact (proj1 (stored_rows_conserve h na P HP)).
   - destruct (merged_sums limit rows fs 0%N Hlim) as (_ & _ & H3). fold out in H3. rewrite H3.
     rewrite rchild_tot_rsum, (rsum_perm _ _ _ _ _ Hperm), rsum_concat. rewrite map_map.
     clear Hperm Hlim H3 out. induction Hok as [|P Ps HP _ IH]; [apply eqm_of_eq; reflexivity|].
-    cbn [map sumZ fold_right]. fold (sumZ (map (fun l => rsum r_parent snd (stored_rows h l) 0%N) Ps)).
+    cbn [map sumZ fold_right]. fold (sumZ (map (fun l => rsum r_parent snd (stored_rows h na l) 0%N) Ps)).
     fold (sumZ (map stored_weight Ps)). rewrite IH. rewrite <- rchild_tot_rsum.
-    rewrite (proj2 (stored_rows_conserve h P HP)). apply eqm_of_eq. reflexivity.
+    rewrite (proj2 (stored_rows_conserve h na P HP)). apply eqm_of_eq. reflexivity.
 Qed.
 
 (* ------------------------------------------------------------------ Tree.Total() *)
